@@ -29,6 +29,14 @@ pub struct RustDocument {
     resolved: HashMap<NodeId, Rc<RustNode>>,
 }
 
+/// The part of a `RustDocument` that belongs to the file that is being read
+pub(crate) struct FileScope {
+    namespace_lookup: HashMap<String, Rc<Namespace>>,
+    current_target_namespace: Option<Rc<Namespace>>,
+    resolving: Vec<NodeId>,
+    resolved: HashMap<NodeId, Rc<RustNode>>,
+}
+
 impl RustDocument {
     pub fn init(doc: &Document) -> Self {
         let mut me = Self::empty();
@@ -37,17 +45,26 @@ impl RustDocument {
         me
     }
 
-    pub fn extend(&mut self, other: RustDocument) {
-        self.namespace_lookup.extend(other.namespace_lookup);
+    /// Start reading another file into this document: the prefix bindings, the target namespace and the forward
+    /// reference bookkeeping belong to one file, everything else is shared. Returns the state of the file that is
+    /// being left, for `leave_file`.
+    pub(crate) fn enter_file(&mut self, doc: &Document) -> FileScope {
+        let scope = FileScope {
+            namespace_lookup: std::mem::take(&mut self.namespace_lookup),
+            current_target_namespace: self.current_target_namespace.take(),
+            resolving: std::mem::take(&mut self.resolving),
+            resolved: std::mem::take(&mut self.resolved),
+        };
+        collect_namespaces_on_node(doc.root_element(), self);
+        scope
+    }
 
-        extend_no_duplicates(&mut self.namespaces, other.namespaces);
-        extend_no_duplicates(&mut self.target_namespaces, other.target_namespaces);
-
-        self.nodes.extend(other.nodes);
-        self.soap_messages.extend(other.soap_messages);
-        self.soap_ports.extend(other.soap_ports);
-        self.soap_bindings.extend(other.soap_bindings);
-        self.soap_services.extend(other.soap_services);
+    /// Return to the file that was being read before `enter_file`.
+    pub(crate) fn leave_file(&mut self, scope: FileScope) {
+        self.namespace_lookup = scope.namespace_lookup;
+        self.current_target_namespace = scope.current_target_namespace;
+        self.resolving = scope.resolving;
+        self.resolved = scope.resolved;
     }
 
     pub fn empty() -> Self {
@@ -115,8 +132,10 @@ impl RustDocument {
     }
 
     pub fn switch_to_target_namespace(&mut self, namespace: &str) {
-        // check if the namespace is already in the list
-        if !self.target_namespaces.iter().any(|ns| ns.namespace == namespace) {
+        // a namespace that is already in the list just becomes the current one again
+        if let Some(tns) = self.target_namespaces.iter().find(|ns| ns.namespace == namespace) {
+            self.current_target_namespace = Some(tns.clone());
+        } else {
             // Check if we already have a reference to this namespace. If so, use that one, otherwise create a new one.
             let tns = self
                 .namespaces
@@ -167,14 +186,6 @@ impl RustDocument {
 
     pub fn find_binding_by_xml_name(&self, xml_name: &str, _namespace: Option<&Namespace>) -> Option<&Rc<SoapBinding>> {
         self.soap_bindings.iter().find(|port| port.name == xml_name)
-    }
-}
-
-fn extend_no_duplicates<T: PartialEq>(me: &mut Vec<T>, other: Vec<T>) {
-    for item in other {
-        if !me.contains(&item) {
-            me.push(item);
-        }
     }
 }
 
